@@ -110,7 +110,7 @@ where
     U: User,
     E: Engine<U>,
 {
-    fn run(self: Rc<Self>, mut state: State<U, E>) -> SResult<U, E> {
+    fn run(self: Rc<Self>, state: State<U, E>) -> SResult<U, E> {
         let uwalk = state.smap_ref().walk(&self.u).clone();
         let vwalk = state.smap_ref().walk(&self.v).clone();
         let wwalk = state.smap_ref().walk(&self.w).clone();
@@ -134,10 +134,7 @@ where
                 LTermInner::Var(_, _),
             ) => {
                 /* u and v grounded */
-                state
-                    .smap_to_mut()
-                    .extend(wwalk.clone(), LTerm::from(u * v));
-                state.run_constraints()
+                state.unify(&wwalk, &LTerm::from(u * v))
             }
             (
                 LTermInner::Val(LValue::Number(u)),
@@ -147,8 +144,7 @@ where
                 /* u and w grounded */
                 match exact_quotient(*w, *u) {
                     Quotient::Unique(v) => {
-                        state.smap_to_mut().extend(vwalk.clone(), LTerm::from(v));
-                        state.run_constraints()
+                        state.unify(&vwalk, &LTerm::from(v))
                     }
                     Quotient::Any => Ok(state.with_constraint(self)),
                     Quotient::None => Err(()),
@@ -162,8 +158,7 @@ where
                 /* v and w grounded */
                 match exact_quotient(*w, *v) {
                     Quotient::Unique(u) => {
-                        state.smap_to_mut().extend(uwalk.clone(), LTerm::from(u));
-                        state.run_constraints()
+                        state.unify(&uwalk, &LTerm::from(u))
                     }
                     Quotient::Any => Ok(state.with_constraint(self)),
                     Quotient::None => Err(()),
